@@ -23,8 +23,21 @@ Theorem C13_deriving_frame : forall w o d, deriving o = true -> d < length (wdoc
 Proof. exact deriving_frame. Qed.
 Print Assumptions C13_deriving_frame.
 
-(* two worlds built by the same calls export the same text: the interpreter is a function *)
-Theorem C13_same_calls : forall ft ops o, snd (step (wrun ft ops) o) = snd (step (wrun ft ops) o).
+(* two documents built by the same calls — whatever export calls (serialisations, comparisons, typed listings, graph
+   conversion) were made in between on either of them: strip_exports strikes them out of a history — are the same world,
+   so every export of one is the export of the other.  (This is the twin the harness builds on the implementation: one
+   world exported after every single call, the other never.) *)
+Theorem C13_same_calls : forall ft ops1 ops2 o,
+  strip_exports ops1 = strip_exports ops2 -> step (wrun ft ops1) o = step (wrun ft ops2) o.
+Proof. exact same_calls_same_exports. Qed.
+Print Assumptions C13_same_calls.
+
+Theorem C13_exports_leave_no_trace : forall ft ops, wrun ft ops = wrun ft (strip_exports ops).
+Proof. exact wrun_strip. Qed.
+
+Example C13_same_calls_applies :
+  strip_exports [ONewDoc; OExportJson 0; OAddNs (CDoc 0) "ex" "http://e/"; OObserveAll; OExportProvn 0]
+  = strip_exports [ONewDoc; OAddNs (CDoc 0) "ex" "http://e/"].
 Proof. reflexivity. Qed.
 
 (* any interleaving and repetition of exporters leaves the world as it was *)
